@@ -709,6 +709,12 @@ def run(repo: Repo, rep: Report, tier: str) -> None:
     n += rule_peak(repo, rep)
     n += rule_papr(repo, rep)
     n += rule_factories(repo, rep)
+    # a constraint object enforces the same limit on every call: no method modifies a stored tensor (the limit, its
+    # precomputed factor) through a local alias (rule shared with C20)
+    from .c20 import rule_chunk_cover, rule_state_alias
+
+    n += rule_chunk_cover(repo, rep, [c_ for mi_ in repo.modules.values() if mi_.relpath.startswith("kaira/constraints/") for c_ in mi_.classes.values()])
+    n += rule_state_alias(repo, rep, [c_ for mi_ in repo.modules.values() if mi_.relpath.startswith("kaira/constraints/") for c_ in mi_.classes.values()])
     # composite = sequential loop (shared with C17)
     from .c17 import seq_loop
 
